@@ -69,28 +69,28 @@ theorem C07_lineFormat_failure_keeps_line_and_flags :
 theorem C07_drop_spec :
     ∀ (env : Env) (ts : Int) (seen : Seen) (a : LogQL.Acc) (names : List Bytes) (ms : List StrMatcher),
       (Stage.apply env ts (Stage.drop names ms) seen a).fst =
-        some { line := a.line, labels := List.filter (fun kv => !dropPair env names ms kv) a.labels } :=
+        some { line := a.line, labels := List.filter (fun (kv : Bytes × Bytes) => !dropPair env names ms kv) a.labels } :=
   @drop_spec
 
 /-- **C07 (keep)**: exactly those labels are kept -/
 theorem C07_keep_spec :
     ∀ (env : Env) (ts : Int) (seen : Seen) (a : LogQL.Acc) (names : List Bytes) (ms : List StrMatcher),
       (Stage.apply env ts (Stage.keep names ms) seen a).fst =
-        some { line := a.line, labels := List.filter (fun kv => dropPair env names ms kv) a.labels } :=
+        some { line := a.line, labels := List.filter (fun (kv : Bytes × Bytes) => dropPair env names ms kv) a.labels } :=
   @keep_spec
 
 /-- drop with bare names removes exactly the named labels -/
 theorem C07_drop_names_get :
     ∀ (env : Env) (ts : Int) (seen : Seen) (a a' : LogQL.Acc) (names : List Bytes),
       (Stage.apply env ts (Stage.drop names []) seen a).fst = some a' →
-        ∀ (k : Bytes), a'.labels.get? k = if (names.any fun x => x == k) = true then none else a.labels.get? k :=
+        ∀ (k : Bytes), a'.labels.get? k = if (names.any fun (x : Bytes) => x == k) = true then none else a.labels.get? k :=
   @drop_names_get
 
 /-- keep with bare names removes all others -/
 theorem C07_keep_names_get :
     ∀ (env : Env) (ts : Int) (seen : Seen) (a a' : LogQL.Acc) (names : List Bytes),
       (Stage.apply env ts (Stage.keep names []) seen a).fst = some a' →
-        ∀ (k : Bytes), a'.labels.get? k = if (names.any fun x => x == k) = true then a.labels.get? k else none :=
+        ∀ (k : Bytes), a'.labels.get? k = if (names.any fun (x : Bytes) => x == k) = true then a.labels.get? k else none :=
   @keep_names_get
 
 /-- decolorize touches no label -/
